@@ -21,7 +21,7 @@ use sha2::Digest;
 use std::collections::{BTreeSet, HashMap};
 use std::num::NonZeroU64;
 
-const HEADER: &str = "From AM Require Import Base.Prelude Store.ChangeChunk Exec.ChgExec.\nLocal Open Scope N_scope.\n";
+const HEADER: &str = "From AM Require Import Base.Prelude Store.ChangeChunk Store.ChangeOps Exec.ChgExec.\nLocal Open Scope N_scope.\n";
 const MAGIC: [u8; 4] = [0x85, 0x6f, 0x4a, 0x83];
 
 pub fn uleb(out: &mut Vec<u8>, mut v: u64) {
@@ -414,6 +414,140 @@ fn check_change(rep: &mut Report, cw: &mut CaseWriter, c: &Change, origin: &str,
             format!("chk_chg_written {} {}", coq_bytes(&data), coq_fields(&f)),
             json!({"kind": "body", "props": ["C18"], "origin": origin, "raw": hex(&raw)}),
         );
+        // (a') the op columns: the model decodes them to the operations decode() reports and re-encodes them to the same bytes
+        if let Ok(e) = guard(|| c.decode()) {
+            rep.add("ops_through_model", e.operations.len() as u64);
+            cw.push(
+                format!("chk_chg_ops {} {}", coq_bytes(&data), coq_lops(&e)),
+                json!({"kind": "ops", "props": ["C18"], "origin": origin, "raw": hex(&raw)}),
+            );
+        }
+    }
+}
+
+// ---------------------------------------------------------------- op columns: Coq terms of decoded operations
+fn coq_sval(v: &ScalarValue) -> String {
+    match v {
+        ScalarValue::Null => "SV_Null".into(),
+        ScalarValue::Boolean(b) => format!("(SV_Bool {})", coq_bool(*b)),
+        ScalarValue::Uint(n) => format!("(SV_Uint {})", n),
+        ScalarValue::Int(i) => format!("(SV_Int {})", coq_z(*i as i128)),
+        ScalarValue::F64(f) => format!("(SV_F64 {})", coq_bytes(&f.to_le_bytes())),
+        ScalarValue::Str(s) => format!("(SV_Str {})", coq_bytes(s.as_bytes())),
+        ScalarValue::Bytes(b) => format!("(SV_Bytes {})", coq_bytes(b)),
+        ScalarValue::Counter(c) => format!("(SV_Counter {})", coq_z(i64::from(c) as i128)),
+        ScalarValue::Timestamp(t) => format!("(SV_Timestamp {})", coq_z(*t as i128)),
+        ScalarValue::Unknown { type_code, bytes } => format!("(SV_Unknown {} {})", type_code, coq_bytes(bytes)),
+    }
+}
+
+fn coq_bopid(o: &legacy::OpId) -> String {
+    format!("({}, {})", o.0, coq_bytes(o.1.to_bytes()))
+}
+
+fn coq_lop(op: &legacy::Op) -> String {
+    let obj = match &op.obj {
+        legacy::ObjectId::Root => "BO_Root".to_string(),
+        legacy::ObjectId::Id(o) => format!("(BO_Id {})", coq_bopid(o)),
+    };
+    let key = match &op.key {
+        legacy::Key::Map(s) => format!("(BK_Prop {})", coq_bytes(s.as_bytes())),
+        legacy::Key::Seq(legacy::ElementId::Head) => "BK_Head".to_string(),
+        legacy::Key::Seq(legacy::ElementId::Id(o)) => format!("(BK_Elem {})", coq_bopid(o)),
+    };
+    let act = match &op.action {
+        legacy::OpType::Make(t) => format!("(LA_Make {})", match t { ObjType::Map => 0, ObjType::List => 2, ObjType::Text => 4, ObjType::Table => 6 }),
+        legacy::OpType::Put(v) => format!("(LA_Put {})", coq_sval(v)),
+        legacy::OpType::Delete => "LA_Del".to_string(),
+        legacy::OpType::Increment(i) => format!("(LA_Inc {})", coq_z(*i as i128)),
+        legacy::OpType::MarkBegin(m) => format!("(LA_MarkBegin {} {} {})", coq_bytes(m.name.as_bytes()), coq_sval(&m.value), coq_bool(m.expand)),
+        legacy::OpType::MarkEnd(e) => format!("(LA_MarkEnd {})", coq_bool(*e)),
+    };
+    let preds: Vec<String> = op.pred.iter().map(coq_bopid).collect();
+    format!("(mkLop {} {} {} {} {})", obj, key, coq_bool(op.insert), act, coq_list(&preds))
+}
+
+fn coq_lops(e: &ExpandedChange) -> String {
+    coq_list(&e.operations.iter().map(coq_lop).collect::<Vec<_>>())
+}
+
+// ---------------------------------------------------------------- hand-built changes that stress the op columns
+const KEYS: [&str; 8] = ["a", "b", "a", "k\u{e9}", "", "\u{6f22}\u{5b57}", "\u{1F600}", "long-key-name-to-make-literal-runs"];
+
+fn rich_scalar(rng: &mut Rng) -> ScalarValue {
+    match rng.below(16) {
+        0 => ScalarValue::Unknown { type_code: 10 + rng.below(6) as u8, bytes: { let n = rng.below(4) as usize; rng.bytes(n) } },
+        1 => ScalarValue::Uint(*rng.pick(&[0u64, 1, 127, 128, 16383, 16384, u32::MAX as u64, (1 << 56) - 1, 1 << 56, (1 << 63) - 1, 1 << 63, u64::MAX])),
+        2 => ScalarValue::Int(*rng.pick(&[0i64, 63, 64, -64, -65, 8191, 8192, -8192, -8193, (1 << 55) - 1, 1 << 55, -(1 << 55), -(1 << 55) - 1, (1 << 62) - 1, 1 << 62, -(1 << 62), -(1 << 62) - 1, i64::MAX, i64::MIN])),
+        3 => ScalarValue::Timestamp(rng.next() as i64 >> (rng.below(64) as u32)),
+        4 => ScalarValue::counter(rng.next() as i64 >> (rng.below(64) as u32)),
+        5 => ScalarValue::F64(f64::from_bits(rng.next())),
+        6 => ScalarValue::Bytes({ let n = *rng.pick(&[0usize, 1, 7, 8, 15, 16, 17, 200]); rng.bytes(n) }),
+        7 => ScalarValue::Str("x".repeat(*rng.pick(&[0usize, 1, 7, 8, 127, 128, 300])).into()),
+        _ => crate::gen::scalar(rng),
+    }
+}
+
+fn hand_built_ops(rng: &mut Rng, i: usize) -> ExpandedChange {
+    let actor = ActorId::from({ let n = 1 + rng.below(20) as usize; rng.bytes(n) });
+    let n_others = (i % 5) as u64;
+    let others: Vec<ActorId> = (0..n_others).map(|_| ActorId::from({ let n = 1 + rng.below(20) as usize; rng.bytes(n) })).collect();
+    let any_actor = |rng: &mut Rng| -> ActorId {
+        if others.is_empty() || rng.chance(1, 3) { actor.clone() } else { rng.pick(&others).clone() }
+    };
+    let n_ops = match i % 8 {
+        0 => 0,
+        1 => 1,
+        2 => 65 + rng.below(10) as usize,
+        3 => 130 + rng.below(40) as usize,
+        _ => 2 + rng.below(24) as usize,
+    };
+    let mut operations: Vec<legacy::Op> = vec![];
+    let mut k = 0usize;
+    while k < n_ops {
+        let key = *rng.pick(&KEYS);
+        let ctrs: [u64; 8] = [1, 2, 3, 63, 64, 128, 70000, u32::MAX as u64];
+        let n_pred = *rng.pick(&[0usize, 0, 1, 1, 2, 3, 5]);
+        let preds: Vec<legacy::OpId> = (0..n_pred).map(|_| legacy::OpId::new(*rng.pick(&ctrs), &any_actor(rng))).collect();
+        let obj = match rng.below(4) {
+            0 => legacy::ObjectId::Root,
+            1 => legacy::ObjectId::Id(legacy::OpId::new(*rng.pick(&ctrs), &actor)),
+            _ => legacy::ObjectId::Id(legacy::OpId::new(*rng.pick(&ctrs), &any_actor(rng))),
+        };
+        let seq_key = |rng: &mut Rng| match rng.below(3) {
+            0 => legacy::Key::Seq(legacy::ElementId::Head),
+            _ => legacy::Key::Seq(legacy::ElementId::Id(legacy::OpId::new(*rng.pick(&ctrs), &any_actor(rng)))),
+        };
+        let op = match rng.below(12) {
+            0 => legacy::Op { action: legacy::OpType::Make(*rng.pick(&[ObjType::Map, ObjType::List, ObjType::Text, ObjType::Table])), obj, key: legacy::Key::Map(key.into()), pred: preds.into(), insert: false },
+            1 => legacy::Op { action: legacy::OpType::Delete, obj, key: if rng.chance(1, 2) { legacy::Key::Map(key.into()) } else { seq_key(rng) }, pred: preds.into(), insert: false },
+            2 => legacy::Op { action: legacy::OpType::Increment(rng.next() as i64 >> (rng.below(64) as u32)), obj, key: legacy::Key::Map(key.into()), pred: preds.into(), insert: false },
+            3 | 4 => legacy::Op { action: legacy::OpType::Put(rich_scalar(rng)), obj, key: seq_key(rng), pred: vec![].into(), insert: true },
+            5 => legacy::Op {
+                action: legacy::OpType::MarkBegin(legacy::MarkData { name: (*rng.pick(&["bold", "link", "", "\u{e9}m", "bold"])).into(), value: rich_scalar(rng), expand: rng.chance(1, 2) }),
+                obj, key: seq_key(rng), pred: vec![].into(), insert: true,
+            },
+            6 => legacy::Op { action: legacy::OpType::MarkEnd(rng.chance(1, 2)), obj, key: seq_key(rng), pred: vec![].into(), insert: true },
+            7 => legacy::Op { action: legacy::OpType::Put(rich_scalar(rng)), obj, key: seq_key(rng), pred: preds.into(), insert: false },
+            _ => legacy::Op { action: legacy::OpType::Put(rich_scalar(rng)), obj, key: legacy::Key::Map(key.into()), pred: preds.into(), insert: false },
+        };
+        // repeat the same op to make repeat runs (of every column at once), or go on with literal runs
+        let reps = if rng.chance(1, 4) { 1 + rng.below(if n_ops > 60 { 70 } else { 5 }) as usize } else { 1 };
+        for _ in 0..reps.min(n_ops - k) {
+            operations.push(op.clone());
+            k += 1;
+        }
+    }
+    ExpandedChange {
+        operations,
+        actor_id: actor,
+        hash: None,
+        seq: 1 + (i as u64 % 3),
+        start_op: NonZeroU64::new(1 + (i as u64 % 200)).unwrap(),
+        time: i as i64,
+        message: None,
+        deps: vec![],
+        extra_bytes: if i % 3 == 0 { vec![1, 2, 3] } else { vec![] },
     }
 }
 
@@ -917,6 +1051,194 @@ fn check_bundles(rep: &mut Report, rng: &mut Rng, changes: &[Change], n_subsets:
     }
 }
 
+// ---------------------------------------------------------------- (e) mutations INSIDE the op-column region
+// the columns of a change as (spec, bytes), and the chunk data rebuilt from edited columns (the column metadata is
+// rewritten to match, so the container stays well-formed and the op-column layer is what gets exercised)
+fn columns_of(data: &[u8], l: &Layout) -> Vec<(u64, Vec<u8>)> {
+    let mut out = vec![];
+    let mut off = l.data.0;
+    for (a, m, _e) in &l.cols {
+        let mut p = *a;
+        let spec = read_uleb(data, &mut p).unwrap_or(0);
+        let mut q = *m;
+        let len = read_uleb(data, &mut q).unwrap_or(0) as usize;
+        out.push((spec, data[off..off + len].to_vec()));
+        off += len;
+    }
+    out
+}
+
+fn rebuild(data: &[u8], l: &Layout, cols: &[(u64, Vec<u8>)]) -> Vec<u8> {
+    let mut v = data[..l.ncols.0].to_vec();
+    uleb(&mut v, cols.len() as u64);
+    for (s, d) in cols {
+        uleb(&mut v, *s);
+        uleb(&mut v, d.len() as u64);
+    }
+    for (_, d) in cols {
+        v.extend_from_slice(d);
+    }
+    v.extend_from_slice(&data[l.data.1..]);
+    v
+}
+
+fn crafted_column(rng: &mut Rng) -> Vec<u8> {
+    let mut v = vec![];
+    match rng.below(16) {
+        0 => { v.push(0); uleb(&mut v, 1u64 << 63); }                                   // null run of 2^63: count as isize = MIN
+        1 => { v.push(0); uleb(&mut v, (1u64 << 63) + 1 + rng.below(3)); }              // negative count: endless nulls, then overflow
+        2 => { v.push(0); uleb(&mut v, u64::MAX); }
+        3 => v.extend_from_slice(&[0x80, 0x80, 0x80, 0x80, 0x80, 0x80, 0x80, 0x80, 0x80, 0x7f, 1]), // literal run of i64::MIN
+        4 => { sleb(&mut v, i64::MAX); v.push(rng.below(8) as u8); }                    // a run of 2^63 - 1
+        5 => { sleb(&mut v, 1 + rng.below(5) as i64); uleb(&mut v, *rng.pick(&[u32::MAX as u64, u32::MAX as u64 + 1, u64::MAX, 1 << 32])); } // values around u32::MAX
+        6 => { sleb(&mut v, -(1 + rng.below(3) as i64)); v.extend_from_slice(&[0x80, 0x00, 0x81, 0x00, 0x82, 0x00]); } // over-long LEBs inside a literal run
+        7 => { v.push(0); v.push(0); sleb(&mut v, 2); v.push(1); }                     // zero-length null run, then a run
+        8 => { sleb(&mut v, 3); v.extend_from_slice(&[2, 0xc3, 0x28]); }                // a run of an invalid UTF-8 string
+        9 => { sleb(&mut v, 2); uleb(&mut v, 1_000_000_001); v.push(b'a'); }            // a string longer than MAX_ALLOCATION
+        10 => { sleb(&mut v, -2); v.extend_from_slice(&[1, b'a']); }                    // literal run cut short
+        11 => { v.extend_from_slice(&[0xff, 0xff, 0xff, 0xff, 0xff, 0xff, 0xff, 0xff, 0xff, 0x02]); } // LEB overflow
+        12 => { uleb(&mut v, 0); uleb(&mut v, 0); uleb(&mut v, 3); uleb(&mut v, u64::MAX); }          // boolean runs: zero counts, huge count
+        13 => { sleb(&mut v, 2 + rng.below(3) as i64); uleb(&mut v, *rng.pick(&[0x10u64, 0x13, 0x24, 0x85, 0x75, 0x86, 0x1a, 0x0f, 0x23, 0x14])); } // value metadata of odd lengths
+        14 => { sleb(&mut v, 1); sleb(&mut v, *rng.pick(&[i64::MAX, i64::MIN, -1, -5])); sleb(&mut v, 1); sleb(&mut v, i64::MAX); } // deltas that saturate / go negative
+        _ => { let n = 1 + rng.below(6) as usize; v = rng.bytes(n); }
+    }
+    v
+}
+
+fn mutate_ops(rng: &mut Rng, data: &[u8], l: &Layout) -> (Vec<u8>, String) {
+    let mut cols = columns_of(data, l);
+    let (d0, d1) = l.data;
+    if cols.is_empty() || d1 == d0 || rng.chance(1, 12) {
+        // give a change without ops some columns
+        let specs: [u64; 14] = [1, 2, 17, 19, 21, 52, 66, 86, 87, 112, 113, 115, 148, 165];
+        let k = rng.below(specs.len() as u64) as usize;
+        let c = crafted_column(rng);
+        let pos = cols.iter().position(|(s, _)| (*s & !8) >= specs[k]).unwrap_or(cols.len());
+        cols.insert(pos, (specs[k], c));
+        return (rebuild(data, l, &cols), "ops-add-column".into());
+    }
+    let ci = rng.below(cols.len() as u64) as usize;
+    match rng.below(14) {
+        0 | 1 | 2 => {
+            let k = d0 + rng.below((d1 - d0) as u64) as usize;
+            let mut v = data.to_vec();
+            v[k] ^= 1 << rng.below(8);
+            (v, "ops-bitflip".into())
+        }
+        3 | 4 => {
+            let k = d0 + rng.below((d1 - d0) as u64) as usize;
+            let mut v = data.to_vec();
+            v[k] = *rng.pick(&[0u8, 1, 0x7f, 0x80, 0xff, 0x7e, 0x40, 0x3f, 2]);
+            (v, "ops-set-byte".into())
+        }
+        5 => {
+            cols[ci].1 = crafted_column(rng);
+            (rebuild(data, l, &cols), "ops-crafted-column".into())
+        }
+        6 => {
+            let c = crafted_column(rng);
+            cols[ci].1.extend_from_slice(&c);
+            (rebuild(data, l, &cols), "ops-append-to-column".into())
+        }
+        7 => {
+            let n = cols[ci].1.len();
+            let cut = if n == 0 { 0 } else { 1 + rng.below(n.min(3) as u64) as usize };
+            cols[ci].1.truncate(n - cut);
+            (rebuild(data, l, &cols), "ops-truncate-column".into())
+        }
+        8 => {
+            cols.remove(ci);
+            (rebuild(data, l, &cols), "ops-drop-column".into())
+        }
+        9 => {
+            let c = cols[ci].clone();
+            cols.insert(ci, c);
+            if rng.chance(1, 2) { cols[ci].1 = crafted_column(rng); }
+            (rebuild(data, l, &cols), "ops-duplicate-column".into())
+        }
+        10 => {
+            let cj = rng.below(cols.len() as u64) as usize;
+            let t = cols[ci].1.clone();
+            cols[ci].1 = cols[cj].1.clone();
+            cols[cj].1 = t;
+            (rebuild(data, l, &cols), "ops-swap-columns".into())
+        }
+        11 => {
+            let n = cols[ci].1.len();
+            let k = rng.below(n as u64 + 1) as usize;
+            let b = *rng.pick(&[0u8, 1, 2, 0x7f, 0x80, 0xff, 0x7e]);
+            cols[ci].1.insert(k, b);
+            (rebuild(data, l, &cols), "ops-insert-byte".into())
+        }
+        12 => {
+            // change the type or the id of a column specification (unknown columns, groups swallowing their followers)
+            let s = cols[ci].0;
+            cols[ci].0 = match rng.below(4) { 0 => s ^ (1 << rng.below(3)), 1 => (s & 0xf) | ((s >> 4) << 4) & !7, 2 => s & !7, _ => s + 16 };
+            (rebuild(data, l, &cols), "ops-change-spec".into())
+        }
+        _ => {
+            // a value column pair / pred group made inconsistent: shift bytes from one column into its neighbour
+            if ci + 1 < cols.len() && !cols[ci + 1].1.is_empty() {
+                let b = cols[ci + 1].1.remove(0);
+                cols[ci].1.push(b);
+            }
+            (rebuild(data, l, &cols), "ops-shift-boundary".into())
+        }
+    }
+}
+
+// panic signature without the toolchain hash in paths below /rustc/<hash>/
+fn psig(p: &PanicInfo) -> String {
+    let s = p.signature();
+    match (s.find("/rustc/"), s.find("/library/")) {
+        (Some(a), Some(b)) if a < b => format!("{}rustc{}", &s[..a], &s[b..]),
+        _ => s,
+    }
+}
+
+fn check_ops_mutant(rep: &mut Report, cw: &mut CaseWriter, data: &[u8], kind: &str, origin: &str) {
+    let chunk = build_chunk(1, data);
+    let replay = json!({"origin": origin, "mutation": kind, "chunk": hex(&chunk)});
+    let (st, lops): (u128, String) = match guard(|| Change::from_bytes(chunk.clone())) {
+        Err(p) => {
+            rep.fail(&["C15", "C18"], &format!("panic|from_bytes|{}", psig(&p)),
+                &format!("Change::from_bytes of a change chunk with mutated op columns panicked: {} at {}", p.message, p.location), replay.clone());
+            (3, "[]".into())
+        }
+        Ok(Err(e)) => {
+            let m = e.to_string();
+            let short: String = m.chars().map(|c| if c.is_ascii_digit() { '#' } else { c }).take(90).collect();
+            rep.count(&format!("ops_reject|{}", short));
+            (classify_error(&m), "[]".into())
+        }
+        Ok(Ok(c)) => {
+            if c.raw_bytes() != &chunk[..] {
+                rep.fail(&["C18"], "chg|accepted-bytes-differ", "from_bytes accepted a chunk but raw_bytes() differs from it", replay.clone());
+            }
+            match guard(|| c.decode()) {
+                Ok(e) => {
+                    if e.operations.len() != c.len() {
+                        rep.fail(&["C18"], "chg|decode-op-count", "decode() gives a different number of operations than len()", replay.clone());
+                    }
+                    (0, coq_lops(&e))
+                }
+                Err(p) => {
+                    rep.fail(&["C15", "C18"], &format!("panic|decode-mutant|{}", psig(&p)),
+                        &format!("decode of a change accepted by from_bytes panicked: {} at {}", p.message, p.location), replay.clone());
+                    (1, "[]".into())
+                }
+            }
+        }
+    };
+    rep.count(&format!("ops_mutants_{}", match st { 0 => "accepted", 1 => "accepted_decode_panics", 2 => "rejected_container", 4 => "rejected_other", _ => "panicked" }));
+    rep.count(&format!("mutation_{}", kind));
+    rep.case(if st != 2 { Some(fnv(&chunk)) } else { None });
+    cw.push(
+        format!("chk_chg_ops_mut {} {} {}", coq_bytes(data), st, lops),
+        json!({"kind": "ops-mutant", "props": ["C18", "C15"], "origin": origin, "mutation": kind, "chunk": hex(&chunk)}),
+    );
+}
+
 pub fn run(rng: &mut Rng, tier: &str, out: &str) -> Report {
     let mut rep = Report::new("chg");
     // replay aid: CHG_REPLAY_CHUNK=<hex of a chunk> prints what Change::from_bytes does with it
@@ -935,6 +1257,9 @@ pub fn run(rng: &mut Rng, tier: &str, out: &str) -> Report {
     let n_model_univ = if thorough { 60 } else { 12 };
     let n_hand = if thorough { 600 } else { 90 };
     let n_mut = if thorough { 3000 } else { 420 };
+    let n_hand_ops = if thorough { 400 } else { 64 };
+    let n_ops_mut = if thorough { 2500 } else { 260 };
+    let mut ops_pool: Vec<(Vec<u8>, String)> = vec![]; // chunk data of changes with ops, for the op-column mutations
     let mut pool: Vec<(Vec<u8>, String)> = vec![]; // chunk data of changes to mutate
 
     // ---- generated histories ----
@@ -971,7 +1296,7 @@ pub fn run(rng: &mut Rng, tier: &str, out: &str) -> Report {
         use automerge::transaction::{CommitOptions, Transactable};
         let n_bulky = if thorough { 24 } else { 6 };
         for bi in 0..n_bulky {
-            let mut doc = automerge::AutoCommit::new().with_actor(crate::gen::actor(rng, bi));
+            let mut doc = automerge::AutoCommit::new().with_actor(crate::gen::actor(rng, bi % 16));
             let mut log: Vec<String> = vec![];
             let n_changes = rng.range(6, 14) as usize;
             for k in 0..n_changes {
@@ -1034,6 +1359,65 @@ pub fn run(rng: &mut Rng, tier: &str, out: &str) -> Report {
         if let Some((_, d)) = split_chunk(c.raw_bytes()) {
             pool.push((d, format!("hand-built {}", i)));
         }
+    }
+
+    // ---- hand-built expanded changes that stress the op columns ----
+    for i in 0..n_hand_ops {
+        let e = hand_built_ops(rng, i);
+        let c = match guard(|| Change::from(e.clone())) {
+            Ok(c) => c,
+            Err(p) => {
+                rep.fail(&["C18", "C37"], &format!("panic|encode|{}", p.signature()), &format!("Change::from(ExpandedChange) panicked: {} at {}", p.message, p.location), json!({"hand_built_ops": i}));
+                continue;
+            }
+        };
+        if let Ok(d) = guard(|| c.decode()) {
+            if format!("{:?}", d.operations) != format!("{:?}", e.operations) {
+                rep.fail(&["C18"], "chg|decode-ops-differ", "decode(Change::from(e)).operations differs from e.operations",
+                    json!({"hand_built_ops": i, "raw": hex(c.raw_bytes()), "want": format!("{:?}", e.operations), "got": format!("{:?}", d.operations)}));
+            }
+        }
+        rep.add("hand_built_ops_total", e.operations.len() as u64);
+        if e.operations.len() > 64 {
+            rep.count("hand_built_changes_over_64_ops");
+        }
+        check_change(&mut rep, &mut cw, &c, "hand_built_ops", true);
+        if let Some((_, d)) = split_chunk(c.raw_bytes()) {
+            if e.operations.len() <= 40 {
+                ops_pool.push((d, format!("hand-built-ops {}", i)));
+            }
+        }
+    }
+    for (d, o) in pool.iter() {
+        if ops_pool.len() < 3000 && d.len() < 600 {
+            ops_pool.push((d.clone(), o.clone()));
+        }
+    }
+
+    // ---- malformed stream: the op-column region ----
+    for _k in 0..n_ops_mut {
+        // mostly changes that have ops
+        let mut picked = rng.pick(&ops_pool).clone();
+        for _ in 0..3 {
+            if layout_of(&picked.0).map(|l| l.data.1 > l.data.0).unwrap_or(false) {
+                break;
+            }
+            picked = rng.pick(&ops_pool).clone();
+        }
+        let (data, origin) = picked;
+        let l = match layout_of(&data) {
+            Some(l) => l,
+            None => continue,
+        };
+        let (mut d, mut kind) = mutate_ops(rng, &data, &l);
+        if rng.chance(1, 8) {
+            if let Some(l2) = layout_of(&d) {
+                let (d2, _k2) = mutate_ops(rng, &d, &l2);
+                d = d2;
+                kind = "ops-double".into();
+            }
+        }
+        check_ops_mutant(&mut rep, &mut cw, &d, &kind, &origin);
     }
 
     // ---- malformed stream ----
